@@ -76,7 +76,8 @@ type regAttempt struct {
 	variant  int // 0 = canonical name
 	cancelAt int
 	update   bool // publish the next version of model 0 before this attempt
-	crash    bool
+	crash    bool // the process dies during this attempt ...
+	crashAt  int  // ... immediately before (or in the middle of) its crashAt-th mutating file-system call
 }
 
 // pullTrace is what one pull told its Trace about each layer, per
@@ -357,6 +358,13 @@ func (w *regWorld) drawCase(tier string) {
 		if k > 0 && len(w.models[0].versions) > 1 && D("publish-update", 2) == 0 {
 			a.update = true
 		}
+		if D("crash?", 6) == 0 {
+			a.crash = true
+			a.crashAt = D("crash-at", 40)
+			if D("crash-late", 2) == 0 {
+				a.crashAt = D("crash-at", 400)
+			}
+		}
 		w.attempts = append(w.attempts, a)
 	}
 	w.pushes = D("pushes", 3)
@@ -620,6 +628,11 @@ func (w *regWorld) runAttempt(k int, a regAttempt) {
 	w.reg.stats = map[string]*layerStat{}
 	w.reg.deliveredAll = map[string][][]byte{}
 	w.attempt = k
+	w.ctl.CrashAt = -1
+	if a.crash {
+		w.ctl.CrashAt = w.ctl.Points + a.crashAt
+		w.ctl.TornSel = a.crashAt * 7919
+	}
 	w.pullsOf = map[string]int{}
 	for _, mi := range a.models {
 		seen := map[string]bool{}
@@ -680,6 +693,7 @@ func (w *regWorld) runAttempt(k int, a regAttempt) {
 	}
 	cancel()
 	w.reg.cancelAt = 0
+	w.ctl.CrashAt = -1
 	if w.touched == nil {
 		w.touched = map[string]bool{}
 	}
@@ -747,10 +761,32 @@ func (w *regWorld) runPush(k int) {
 	}
 }
 
-func (w *regWorld) driver(done *bool) {
-	for k, a := range w.attempts {
+func (w *regWorld) driver(from int, restarted bool, done *bool) {
+	if restarted {
+		// a new process on the surviving cache directory
+		c, err := blob.Open(w.dir)
+		if err != nil {
+			w.violate("pull-audit", "pull-audit:after-crash:reopen-failed", "blob.Open(%s) after the crash fails: %v", w.dir, err)
+			*done = true
+			return
+		}
+		w.cache = c
+		cl := *w.cl
+		cl.Cache = c
+		w.cl = &cl
+		w.local = &Local{Client: w.cl, Logger: w.local.Logger}
+		verifsim.Probe("crash_restarted")
+		w.phase = fmt.Sprintf("after the crash in attempt %d", from)
+		verifsim.Atomic(func() {
+			for _, m := range w.models {
+				m.lastSha = ""
+				w.auditName(m, "after-crash", false, nil, nil)
+			}
+		})
+	}
+	for k := from; k < len(w.attempts); k++ {
 		w.phase = fmt.Sprintf("attempt %d", k+1)
-		w.runAttempt(k, a)
+		w.runAttempt(k, w.attempts[k])
 	}
 	for k := 0; k < w.pushes; k++ {
 		w.phase = fmt.Sprintf("push %d", k+1)
@@ -763,6 +799,20 @@ func (w *regWorld) driver(done *bool) {
 		}
 	})
 	*done = true
+}
+
+// afterCrash: the process died during an attempt; the registry is another machine and lives on.
+func (w *regWorld) afterCrash() {
+	w.note("process died in attempt %d: %s", w.attempt+1, strings.ReplaceAll(w.ctl.Crashed, filepath.Dir(w.dir), ""))
+	w.inflight = nil
+	w.ctl.CrashAt = -1
+	w.reg.cancelAt = 0
+	if w.touched == nil {
+		w.touched = map[string]bool{}
+	}
+	for d := range w.reg.everRequested {
+		w.touched[d] = true
+	}
 }
 
 // ---- one execution ----------------------------------------------------------------------
@@ -788,8 +838,16 @@ func runRegistry(t *testing.T, tape *verifsim.Tape, prop, tier string, keepLog b
 		w.drawCase(tier)
 		sim.OnStep = w.onStep
 		done := false
-		sim.Go("driver", func() { w.driver(&done) })
+		sim.Go("driver", func() { w.driver(0, false, &done) })
 		stop := sim.RunUntil(func() bool { return done }, 4*time.Hour, 120000)
+		for ncrash := 0; stop == verifsim.Crashed && ncrash < 4; ncrash++ {
+			sim.Crash()
+			sim.ResetCrash()
+			w.afterCrash()
+			from := w.attempt + 1
+			sim.Go(fmt.Sprintf("driver-restart%d", ncrash+1), func() { w.driver(from, true, &done) })
+			stop = sim.RunUntil(func() bool { return done }, 4*time.Hour, 120000)
+		}
 		switch stop {
 		case verifsim.CondTrue, verifsim.Violated:
 		default:
